@@ -54,6 +54,10 @@ fn alphabet() -> Vec<Mac> {
 pub enum Route {
     Direct,
     Via(CallKind),
+    /// OSAKA: the driver is an EOF contract that issues EXTSTATICCALL (to the code under test, or to a
+    /// legacy hop that CALLs it)
+    ExtStatic,
+    ExtStaticViaCall,
 }
 pub fn routes() -> Vec<Route> {
     vec![Route::Direct, Route::Via(CallKind::Call), Route::Via(CallKind::CallCode), Route::Via(CallKind::DelegateCall), Route::Via(CallKind::StaticCall)]
@@ -63,7 +67,12 @@ pub fn build_case(spec: SpecId, route: Route, code: &[u8]) -> TxCase {
     let mut w = std_world();
     w.insert(T, PlainAcc::contract(code).with_balance(U256::from(10)).with_storage(1, 5));
     let entry = match route {
-        Route::Direct => T,
+        Route::Direct | Route::ExtStatic => T,
+        Route::ExtStaticViaCall => {
+            let mid = Asm::new().call(op::CALL, U256::from(400_000), T, Some(U256::ZERO), 0, 0, 0, 0).op(op::POP).op(op::STOP).build();
+            w.insert(MID, PlainAcc::contract(&mid).with_balance(U256::from(10)).with_storage(1, 5));
+            MID
+        }
         Route::Via(k) => {
             let v = if k.has_value() { Some(U256::ZERO) } else { None };
             let mid = Asm::new().call(k.opcode(), U256::from(400_000), T, v, 0, 0, 0, 0).op(op::POP).op(op::STOP).build();
@@ -71,7 +80,15 @@ pub fn build_case(spec: SpecId, route: Route, code: &[u8]) -> TxCase {
             MID
         }
     };
-    let a = Asm::new().call(op::STATICCALL, U256::from(600_000), entry, None, 0, 0, 0, 0).op(op::POP).sstore(7, 7).op(op::STOP).build();
+    let a = if matches!(route, Route::ExtStatic | Route::ExtStaticViaCall) {
+        // EOF driver: EXTSTATICCALL(entry, 0, 0); POP; SSTORE(7, 7); STOP
+        let mut code = vec![0x5f, 0x5f, 0x73];
+        code.extend_from_slice(entry.as_slice());
+        code.extend_from_slice(&[0xfb, 0x50, 0x60, 0x07, 0x60, 0x07, 0x55, 0x00]);
+        crate::props::c26::Cont::simple(code, 3).raw()
+    } else {
+        Asm::new().call(op::STATICCALL, U256::from(600_000), entry, None, 0, 0, 0, 0).op(op::POP).sstore(7, 7).op(op::STOP).build()
+    };
     w.insert(A, PlainAcc::contract(&a).with_balance(U256::from(10)));
     let mut c = TxCase::new(spec, w);
     c.tx.gas_limit = 2_000_000;
@@ -123,6 +140,28 @@ pub fn check_case(case: &TxCase) -> (Vec<(String, String)>, u64, u64, String) {
     for (k, msg) in &mon.static_violations {
         v.push((k.clone(), msg.clone()));
     }
+    // ground truth that does not rely on revm's own static flag: a frame opened by STATICCALL /
+    // EXTSTATICCALL must be static, and since the code under test only ever runs below such a frame,
+    // nothing but the driver's own slot, the sender and the coinbase may differ at the end
+    for a in mon.attempts.iter().filter(|a| (a.scheme == "StaticCall" || a.scheme == "ExtStaticCall") && !a.is_static) {
+        v.push(("static-call-frame-not-static".into(), format!("{} to {} opened a frame that is not static", a.scheme, a.target)));
+    }
+    if o.class == Class::Success {
+        if !o.logs.is_empty() {
+            v.push(("static-region-logged".into(), format!("{} logs were emitted although all code ran under a static call", o.logs.len())));
+        }
+        for (addr, acc) in &o.state {
+            if *addr == A || *addr == case.tx.caller || *addr == case.block.coinbase {
+                continue;
+            }
+            let pre = case.world.get(addr).cloned().unwrap_or_default();
+            let changed_slot = acc.storage.iter().find(|(_, s)| s.present_value != s.original_value);
+            if acc.info.balance != pre.balance || acc.info.nonce != pre.nonce || acc.info.code_hash != pre.code_hash() || acc.is_selfdestructed() || acc.is_created() || changed_slot.is_some() {
+                v.push(("static-region-changed-world".into(), format!("account {addr} differs after the transaction although all code ran under a static call: balance {} -> {}, nonce {} -> {}, changed slot {:?}, destroyed {}, created {}", pre.balance, acc.info.balance, pre.nonce, acc.info.nonce, changed_slot.map(|(k, s)| (*k, s.original_value, s.present_value)), acc.is_selfdestructed(), acc.is_created())));
+                break;
+            }
+        }
+    }
     // the driver's own write after the static call must still work (static mode does not leak upwards)
     if o.class == Class::Success {
         let ok = o.state.get(&A).and_then(|a| a.storage.get(&U256::from(7))).map(|s| s.present_value == U256::from(7)).unwrap_or(false);
@@ -148,6 +187,15 @@ pub fn run(ctx: &Ctx) -> i32 {
         for seq in sequences(&a, depth) {
             for r in routes() {
                 jobs.push((s, r, seq.clone()));
+            }
+        }
+    }
+    // OSAKA: EOF drivers issuing EXTSTATICCALL (one level shallower)
+    {
+        let a = alphabet_for(SpecId::OSAKA, &alphabet());
+        for seq in sequences(&a, depth - 1) {
+            for r in [Route::ExtStatic, Route::ExtStaticViaCall, Route::Direct] {
+                jobs.push((SpecId::OSAKA, r, seq.clone()));
             }
         }
     }
@@ -184,8 +232,8 @@ pub fn run(ctx: &Ctx) -> i32 {
         .collect();
     let acc = merge_all(accs);
     let meta = Meta {
-        rule: format!("every macro program of depth <= {depth} over a 29-macro alphabet (SSTORE incl. no-change writes, TSTORE, LOG, CREATE/CREATE2, SELFDESTRUCT, CALL with value, nested calls to writers) as the code under static mode, reached directly by STATICCALL and through STATICCALL -> CALL/CALLCODE/DELEGATECALL/STATICCALL, on 8 specs Byzantium..Prague; distinct = distinct (spec, route, nested results, write attempts)"),
-        assumptions: vec!["'world state' excludes access status: warm/cold and the touched mark (a zero-value call touches its target in any mode)".into(), "EXTSTATICCALL (OSAKA) is not driven by this legacy-code enumeration".into()],
+        rule: format!("every macro program of depth <= {depth} over a 29-macro alphabet (SSTORE incl. no-change writes, TSTORE, LOG, CREATE/CREATE2, SELFDESTRUCT, CALL with value, nested calls to writers) as the code under static mode, reached directly by STATICCALL and through STATICCALL -> CALL/CALLCODE/DELEGATECALL/STATICCALL, on 8 specs Byzantium..Prague, and (one level shallower, OSAKA) from an EOF driver through EXTSTATICCALL and EXTSTATICCALL -> CALL; distinct = distinct (spec, route, nested results, write attempts)"),
+        assumptions: vec!["'world state' excludes access status: warm/cold and the touched mark (a zero-value call touches its target in any mode)".into(), "end-to-end ground truth independent of the static flag: frames opened by STATICCALL / EXTSTATICCALL must be static, no logs and no account other than the driver, sender and coinbase may differ after the transaction".into()],
         bounds: json!({"depth": depth, "routes": 5, "specs": 8}),
         min_distinct: 100,
         exhaustive: true,
